@@ -59,6 +59,20 @@ class SetSpec(object):
         nset, _ = budget
         for _ in range(nset):
             t = domgen.gen_tree(rng, 2, 2)
+            if rng.random() < 0.15:
+                # the candidate is Python-equal to the value the option has now, yet of the wrong
+                # type: 4.0 for an indent of 4, None for the `indent=None` a parse leaves behind
+                # when the header has no indent. "Unchanged" is no reason to skip the validation.
+                path = rng.choice([p for p in paths_of(t) if 'f' not in p])
+                sec = t if path == 'm' else t['changes'][int(path[1:])]
+                opts = sec['preamble']['opts']
+                if rng.random() < 0.5:
+                    opts['indent'] = None
+                    yield (t, path, 'preamble_indent', None)
+                else:
+                    opts['indent'] = rng.choice([0, 1, 2, 4, 8])
+                    yield (t, path, 'preamble_indent', float(opts['indent']))
+                continue
             yield (t, rng.choice(paths_of(t)), rng.choice(NAMES), rng.choice(VALS))
 
     def run(self, case):
